@@ -2405,6 +2405,26 @@ func (c *ChannelStateDB) AdvanceCommitChainTail(channel *OpenChannel,
 			// This shouldn't normally happen as we always store
 			// the number of updates, but could still be
 			// encountered by nodes that are upgrading.
+			//
+			// It is also the case for a channel whose local
+			// commitment was never updated yet, so the local
+			// updates the peer hasn't yet signed still need to
+			// be persisted in order to be restored after a
+			// restart.
+			var b bytes.Buffer
+			err = serializeLogUpdates(&b, updates)
+			if err != nil {
+				return err
+			}
+
+			err = chanBucket.Put(
+				remoteUnsignedLocalUpdatesKey, b.Bytes(),
+			)
+			if err != nil {
+				return fmt.Errorf("unable to store remote "+
+					"unsigned local updates: %w", err)
+			}
+
 			newRemoteCommit = &newCommit.Commitment
 			return nil
 		}
